@@ -5,6 +5,7 @@
 -/
 import YashModel.Redir.Command
 import YashModel.Redir.Meaning
+import YashModel.Redir.Concrete
 namespace YashModel.Redir
 open YashModel.Generated.RedirConsts
 
@@ -29,17 +30,27 @@ structure CommandSound (t0 tb : FdTable) (k : Kind) (rs : List Redir) (wb : Worl
       there when the script started) are at 10 or above -/
   internal_during : ∀ wd td, tr.during = some (wd, td) → ∀ fd, td.isCloexec fd = true →
     t0.isCloexec fd = true ∨ 10 ≤ fd
+  /-- the same at every intermediate state of the guard's loop that the harness looks at (the table
+      after each `perform_redir`, the failing one included) -/
+  internal_steps : ∀ steps cause, tr.steps = some (steps, cause) → ∀ p ∈ steps, ∀ fd,
+    p.2.isCloexec fd = true → t0.isCloexec fd = true ∨ 10 ≤ fd
 
 /-- ★ one command, any kind (`runCommand` is what the driver runs for it) -/
 theorem command_sound (t0 : FdTable) (w : World) (t : FdTable) (k : Kind) (rs : List Redir) (prev : Nat)
     (hw : WF t) (hsub : ∀ fd, t.isCloexec fd = true → t0.isCloexec fd = true) :
     CommandSound t0 t k rs w (runCommand w t k rs prev) := by
-  refine ⟨hw, hsub, ?_, fun fd h => hsub fd (runCommand_none_left w t k rs prev hw fd h), ?_⟩
+  refine ⟨hw, hsub, ?_, fun fd h => hsub fd (runCommand_none_left w t k rs prev hw fd h), ?_, ?_⟩
   · by_cases hx : k.isExec = true ∧ (performRedirs worldOracle w t rs).err = none
     · exact .inr ⟨hx.1, hx.2, exec_persists w t k rs prev hx.1 hx.2⟩
     · exact .inl (command_restores w t k rs prev hw (fun hk he => hx ⟨hk, he⟩))
   · intro wd td h fd hc
     rcases runCommand_during_internal w t k rs prev wd td h fd hc with h1 | h2
+    · exact .inl (hsub fd h1)
+    · exact .inr h2
+  · intro steps cause h p hp fd hc
+    obtain ⟨hs, _⟩ := runCommand_steps w t k rs prev steps cause h
+    rw [hs] at hp
+    rcases steps_internal worldOracle w t rs p hp fd hc with h1 | h2
     · exact .inl (hsub fd h1)
     · exact .inr h2
 
@@ -85,6 +96,10 @@ example : (runScript (stdWorld false) stdTable 0
     [(.exec, [⟨3, .file .fileOut 5⟩]), (.regular, [⟨1, .file .fileOut 3⟩, ⟨0, .file .fileIn 8⟩]),
      (.regular, [⟨1, .file .fileOut 3⟩, ⟨1, .file .fileAppend 4⟩])]).length = 3 := by decide
 
+-- non-vacuity of `internal_steps`: the guard driven directly records a state per item
+example : ((runCommand (stdWorld false) stdTable .guardKeep
+    [⟨1, .file .fileOut 3⟩, ⟨2, .dup false (.fd 1)⟩]).steps.map (·.1.length)) = some 2 := by decide
+
 /-! ### the seeded mistakes are excluded by the statements -/
 
 /-- round 3 (undo in the order the copies were saved): with the same target named twice the forward
@@ -118,6 +133,25 @@ variable {W : Type}
 theorem open_mode_table :
     fileIn = posixOpenArgs .fileIn ∧ fileOut = posixOpenArgs .fileOut ∧ fileOut = posixOpenArgs .fileClobber ∧
     fileAppend = posixOpenArgs .fileAppend ∧ fileInOut = posixOpenArgs .fileInOut := by decide
+
+/-- ★ the other tables of the code the model is stated over (re-extracted from the Rust sources on
+    every run; a change of any of them re-checks — and, where the property depends on it, breaks — the
+    proofs): under `noclobber` neither `open` of `open_file_noclobber` truncates (the first creates
+    exclusively, the second opens what exists without O_CREAT/O_TRUNC, tried on EEXIST only), both for
+    writing; `<&` requires a readable, `>&` a writable descriptor; `>>|` and `<<<` are the operators
+    rejected as unsupported; the `.` built-in opens its script read-only with O_CLOEXEC and no other
+    flag; `exec`, `:` and `.` are special built-ins (a redirection error ends a non-interactive shell),
+    `command` is not -/
+theorem code_tables_posix :
+    noclobberFirst.acc = .wo ∧ noclobberFirst.create = true ∧ noclobberFirst.excl = true ∧
+      noclobberFirst.trunc = false ∧
+    noclobberSecond.acc = .wo ∧ noclobberSecond.create = false ∧ noclobberSecond.trunc = false ∧
+      noclobberSecond.excl = false ∧ noclobberRetryErrno = "EEXIST" ∧
+    dupInAcc = .ro ∧ dupOutAcc = .wo ∧ unsupportedOps = ["Pipe", "String"] ∧
+    dotOpenArgs = ⟨.ro, false, false, false, false⟩ ∧ dotOpenCloexec = true ∧
+    typeOfExec = .special ∧ typeOfColon = .special ∧ typeOfDot = .special ∧ typeOfCommand = .mandatory ∧
+    Kind.isSpecial .exec = true ∧ Kind.isSpecial .colon = true ∧ Kind.isSpecial .dot = true ∧
+    Kind.isSpecial .commandExec = false := by decide
 
 /-- ★ for every oracle, table and redirection: when `perform` succeeds, the target descriptor is what
     POSIX says the operator makes of it (`Meaning`: a new non-CLOEXEC descriptor on a description
@@ -183,6 +217,123 @@ theorem resolve_posix (w : World) (path : Nat) (args : OpenArgs) (hp : path ≠ 
   · simp only [World.resolve, hp, ↓reduceIte, h1, h2, Bool.false_eq_true]
     simp [fileAt, setFile, hlen]
   · simp only [World.resolve, hp, ↓reduceIte, h1, h2, Bool.false_eq_true]
+
+/-! ### the operators' meaning with the world threaded (closes the existential of `Meaning`) -/
+
+/-- ★ for every oracle: a file redirection that succeeds (`noclobber` not interfering) leaves on its
+    target a non-CLOEXEC descriptor on the very description one `open` with the operator's POSIX
+    arguments returned, called in the world right after the allocation check (itself preceded by the
+    allocation of the saved copy when there was something to save), and the world afterwards is the
+    one that call left — no other file-system operation took place -/
+theorem perform_file_world (o : Oracle W) (w : W) (t : FdTable) (fd : Fd) (op : FileOp) (path : Nat)
+    (s : SavedFd) (hnc : op = .fileOut → o.noclobber w = false ∧ o.noclobber (o.deny w).1 = false)
+    (h : (perform o w t ⟨fd, .file op path⟩).r = .ok s) :
+    ∃ w', (w' = w ∨ w' = (o.deny w).1) ∧ ∃ ofd,
+      o.resolve (o.deny w').1 ⟨path, posixOpenArgs op⟩ = ((perform o w t ⟨fd, .file op path⟩).w, .ok ofd) ∧
+      (perform o w t ⟨fd, .file op path⟩).t.get fd = some ⟨ofd, false⟩ :=
+  perform_file_world_lemma o w t fd op path s hnc h
+
+/-- ★ the same in the concrete world the driver runs, composed with `resolve_posix`: after a
+    successful `n<f`, `n>f`, `n>|f`, `n>>f`, `n<>f` (`noclobber` off for `>`) descriptor `n` is a new,
+    non-CLOEXEC descriptor on a new open file description of `f` with the access mode and append flag
+    POSIX prescribes and offset 0; an existing regular file has been emptied exactly for `>` / `>|`;
+    a missing file has been created empty (which only the creating operators can do) -/
+theorem file_redirection_concrete (w : World) (t : FdTable) (fd : Fd) (op : FileOp) (path : Nat) (s : SavedFd)
+    (hnc : op = .fileOut → w.noclobber = false) (hp : path ≠ pathEnotdir) (hlen : path < w.files.length)
+    (h : (perform worldOracle w t ⟨fd, .file op path⟩).r = .ok s) :
+    (perform worldOracle w t ⟨fd, .file op path⟩).t.get fd = some ⟨w.ofds.length, false⟩ ∧
+    ((fileAt w path).present = true → (fileAt w path).kind = .reg →
+      (fileAt (perform worldOracle w t ⟨fd, .file op path⟩).w path).content =
+        (if (posixOpenArgs op).trunc then [] else (fileAt w path).content) ∧
+      ofdAt (perform worldOracle w t ⟨fd, .file op path⟩).w w.ofds.length =
+        ⟨path, (posixOpenArgs op).acc != .wo, (posixOpenArgs op).acc != .ro, (posixOpenArgs op).append, 0⟩) ∧
+    ((fileAt w path).present = false → (posixOpenArgs op).create = true ∧
+      fileAt (perform worldOracle w t ⟨fd, .file op path⟩).w path = ⟨true, .reg, [], false⟩) := by
+  obtain ⟨w', hw', ofd, hres, hget⟩ := perform_file_world_lemma worldOracle w t fd op path s
+    (fun hop => ⟨hnc hop, hnc hop⟩) h
+  have hfiles : (World.deny w').1.files = w.files := by rcases hw' with rfl | rfl <;> rfl
+  have hofds : (World.deny w').1.ofds = w.ofds := by rcases hw' with rfl | rfl <;> rfl
+  have hres' : (World.deny w').1.resolve ⟨path, posixOpenArgs op⟩ =
+      ((perform worldOracle w t ⟨fd, .file op path⟩).w, .ok ofd) := hres
+  have hofd : ofd = w.ofds.length := by
+    rw [← hofds]; exact World.resolve_ok_ofd _ _ _ _ hres'
+  have hf : fileAt (World.deny w').1 path = fileAt w path := fileAt_congr hfiles path
+  have hex : (posixOpenArgs op).excl = false := by cases op <;> rfl
+  obtain ⟨_, h2, h3, h4⟩ := resolve_posix (World.deny w').1 path (posixOpenArgs op) hp (by rw [hfiles]; exact hlen)
+  rw [hf] at h2 h3 h4
+  rw [hres', hofds] at h2 h3
+  refine ⟨by rw [hget, hofd], fun hpres hreg => ?_, fun hmiss => ?_⟩
+  · obtain ⟨_, hc, ho⟩ := h2 hpres hreg hex
+    exact ⟨hc, ho⟩
+  · cases hcr : (posixOpenArgs op).create with
+    | true => exact ⟨rfl, (h3 hmiss hcr).2⟩
+    | false => rw [h4 hmiss hcr] at hres'; exact absurd (congrArg Prod.snd hres') (by simp)
+
+-- non-vacuity: `>>b` on the standard table
+example : (perform worldOracle (stdWorld false) stdTable ⟨1, .file .fileAppend 4⟩).r = .ok ⟨1, some 10⟩ ∧
+    (fileAt (stdWorld false) 4).present = true ∧ (fileAt (stdWorld false) 4).kind = .reg :=
+  ⟨rfl, by decide, by decide⟩
+
+/-- ★ here-documents in the concrete world (what `fill` does is no longer an oracle call): after a
+    successful `n<<E` descriptor `n` is a new, non-CLOEXEC descriptor on a new read-write description,
+    at offset 0, of a new anonymous regular file — none of the named paths — that holds exactly the
+    content; reading `k` bytes through it yields the first `k` bytes of the content -/
+theorem heredoc_concrete (w : World) (t : FdTable) (fd : Fd) (content : List Nat) (s : SavedFd)
+    (h : (perform worldOracle w t ⟨fd, .hereDoc content⟩).r = .ok s) :
+    (perform worldOracle w t ⟨fd, .hereDoc content⟩).t.get fd = some ⟨w.ofds.length, false⟩ ∧
+    ofdAt (perform worldOracle w t ⟨fd, .hereDoc content⟩).w w.ofds.length = ⟨w.files.length, true, true, false, 0⟩ ∧
+    fileAt (perform worldOracle w t ⟨fd, .hereDoc content⟩).w w.files.length = ⟨true, .reg, content, false⟩ ∧
+    ∀ k, ((perform worldOracle w t ⟨fd, .hereDoc content⟩).w.read w.ofds.length k).map (·.2) = some (content.take k) := by
+  obtain ⟨w', hw', hpw, _, hget⟩ := perform_heredoc_world_lemma worldOracle w t fd content s h
+  have hfiles : w'.files = w.files := by rcases hw' with rfl | rfl <;> rfl
+  have hofds : w'.ofds = w.ofds := by rcases hw' with rfl | rfl <;> rfl
+  -- the world `fill` runs in: the temporary file and its description appended, one more allocation counted
+  have hw0 : (World.deny (World.tmpfile w').1).1.files = w.files ++ [⟨true, .reg, [], false⟩] ∧
+      (World.deny (World.tmpfile w').1).1.ofds = w.ofds ++ [⟨w.files.length, true, true, false, 0⟩] ∧
+      (World.tmpfile w').2 = w.ofds.length := by
+    simp [World.deny, World.tmpfile, hfiles, hofds]
+  obtain ⟨hf0, ho0, hid⟩ := hw0
+  have hd : ofdAt (World.deny (World.tmpfile w').1).1 w.ofds.length = ⟨w.files.length, true, true, false, 0⟩ := by
+    simp [ofdAt, ho0]
+  have hf : fileAt (World.deny (World.tmpfile w').1).1 w.files.length = ⟨true, .reg, [], false⟩ := by
+    simp [fileAt, hf0]
+  obtain ⟨_, hod, hfd⟩ := World.fill_fresh (World.deny (World.tmpfile w').1).1 w.ofds.length w.files.length content
+    hd hf (by simp [ho0]) (by simp [hf0])
+  have hpw' : (perform worldOracle w t ⟨fd, .hereDoc content⟩).w =
+      ((World.deny (World.tmpfile w').1).1.fill w.ofds.length content).1 := by
+    rw [hpw]; show (World.fill _ (World.tmpfile w').2 content).1 = _; rw [hid]; rfl
+  have hget' : (perform worldOracle w t ⟨fd, .hereDoc content⟩).t.get fd = some ⟨w.ofds.length, false⟩ := by
+    rw [hget]; show some (FdEntry.mk (World.tmpfile w').2 false) = _; rw [hid]
+  rw [hpw']
+  refine ⟨hget', hod, hfd, fun k => ?_⟩
+  simp [World.read, hod, hfd]
+
+-- non-vacuity: `0<<E` with three bytes
+example : (perform worldOracle (stdWorld false) stdTable ⟨0, .hereDoc [5, 6, 10]⟩).r = .ok ⟨0, some 10⟩ := rfl
+
+/-- ★ what "append" means for the description `>>` opens (and "write" for the others): a write
+    through an appending description on a regular file lands at the end of the file whatever the
+    offset; through any other writable description it overwrites at the offset -/
+theorem append_writes_at_end (w w1 : World) (ofd : Nat) (bytes : List Nat)
+    (hk : (fileAt w (ofdAt w ofd).file).kind = .reg) (h : w.write ofd bytes = some w1)
+    (hlen : (ofdAt w ofd).file < w.files.length) :
+    (fileAt w1 (ofdAt w ofd).file).content =
+      if (ofdAt w ofd).app then (fileAt w (ofdAt w ofd).file).content ++ bytes
+      else writeAt (fileAt w (ofdAt w ofd).file).content (ofdAt w ofd).off bytes := by
+  unfold World.write at h
+  simp only at h
+  split at h
+  · cases h
+  · split at h
+    · cases h
+    · cases h
+      rw [fileAt_setOfd, fileAt_setFile_same _ _ _ hlen]
+      have hreg : ((fileAt w (ofdAt w ofd).file).kind == FKind.reg) = true := by rw [hk]; rfl
+      cases happ : (ofdAt w ofd).app <;> simp [hreg, writeAt_end]
+
+-- non-vacuity: a write through `>>b`'s description (offset 0) on b = [3,4] appends
+example : let r := perform worldOracle (stdWorld false) stdTable ⟨1, .file .fileAppend 4⟩
+    (r.w.write 3 [9]).map (fun w1 => (fileAt w1 4).content) = some [3, 4, 9] := by decide
 
 /-! ### the Spec column's check is the declarative statement -/
 
